@@ -7,6 +7,7 @@ CONSTANTS
   Faithful = TRUE
   ShareIdentical = TRUE
   CachedDecide = FALSE
+  AtomicReload = FALSE
 INVARIANTS TypeOK WorkersShare DestsIsolated DefsIsolated RegistryGoals WorkerGoals PeerCountCurrent
 PROPERTIES CacheStable RegistryMonotone
 CHECK_DEADLOCK FALSE
